@@ -338,9 +338,17 @@ def oscillator_check(rnd, mech):
         return 'discard'
     err = float(np.max(np.abs(df.values - sol.y.T)))
     scale = max(1.0, float(np.max(np.abs(sol.y))))
-    if not err <= 50 * rtol * scale:
+    # how far the SAME method at the SAME tolerances is from the solution when it integrates the reference right-hand side: the
+    # global error of an adaptive method on a relaxation oscillation is not a fixed multiple of rtol (LSODA reaches 2e-4 at
+    # rtol 1e-6), so the run is judged against what the method itself achieves, not against a constant
+    hand = solve_ivp(f, (0.0, T), [float(ref.val[k]) for k in keys], method=method, rtol=rtol, atol=1e-9, t_eval=times)
+    if not hand.success:
+        return 'discard'
+    err_hand = float(np.max(np.abs(hand.y.T - sol.y.T)))
+    allowed = 5 * err_hand + 20 * rtol * scale
+    if not err <= allowed:
         return (f"scipy/{method} at rtol={rtol} on coupled van der Pol units over T={T}: deviates from the tight-tolerance reference by "
-                f"{err:.3e} (allowed {50 * rtol * scale:.1e})")
+                f"{err:.3e}; the same method and tolerances on the reference right-hand side deviate by {err_hand:.3e} (allowed {allowed:.1e})")
     mech['adaptive_points_compared'] = mech.get('adaptive_points_compared', 0) + df.shape[0]
     return None
 
